@@ -57,7 +57,8 @@ META = dict(
          "PPProofs/Props/C11DeepC.lean: deepcopyC_tokens_fresh, deepcopyC_frame_tokens — the groups inside a rebuilt "
          "container are new at every depth, the expanded nested list is preserved, own mutations never cross), not for "
          "copy.deepcopy/pickle and not for containers nested in containers (shared by the code; opaque in the model); "
-         "the container models are tied to the class by the frames:container-tokens oracle only. "
+         "the container model is tied to the class by one sharing pattern (stream container-sharing) and the "
+         "frames:container-tokens oracle. "
          "from_dict: tree model of from_dict/as_dict (PPModel/Mod/PRFromDict.lean), "
          "from_dict_roundtrip proved for ALL dicts whose nested dicts are non-empty, at every depth (full strength on "
          "the tree model; its one assumption about `+=` in the loop is proved on the full model as from_dict_item_step; tied to the class by a "
@@ -534,6 +535,23 @@ def deep_share_real(pp, kind, d):
     return out
 
 
+def cont_share_real(pp):
+    """r = [(<['a']>, 'x', <['b']>), <['a']>] (a tuple token holding two groups, the first group again as a token);
+    c = r.deepcopy(); see PRHeapDeepC.lean `contShare`"""
+    PR = pp.ParseResults
+    g0, g1 = PR(["a"]), PR(["b"])
+    r = PR([(g0, "x", g1), g0])
+    c = r.deepcopy()
+    t = c[0]
+    out = [t[0] is g0, t[2] is g1, c[1] is g0, c[1] is t[0]]
+    same = cnorm(pp, c) == cnorm(pp, r)
+    before = cnorm(pp, r)
+    t[0].append("z")
+    out.append(cnorm(pp, r) != before)
+    out.append(same)
+    return out
+
+
 # ---- nested groups inside container tokens (a parse action may return tuples / lists / dicts of groups) -------------
 def cnorm(pp, x):
     PR = pp.ParseResults
@@ -650,7 +668,9 @@ def run(ctx):
                          [sx(Sym("prdeepshare"), k, d) for k, d in dcases],
                          [dumps([bool(b) for b in deep_share_real(pp, k, d)]) for k, d in dcases],
                          outcome_of=lambda c, o: c["kind"])
-    d0 = list(d0) + list(d0b)
+    d0c = ctx.correspond("container-sharing", [{"shape": "[(g0,'x',g1), g0]", "kind": "deepcopy"}], [sx(Sym("prcontshare"))],
+                         [dumps([bool(b) for b in cont_share_real(pp)])], outcome_of=lambda c, o: c["kind"])
+    d0 = list(d0) + list(d0b) + list(d0c)
     # ---- (a) preserve: every kind of copy has the views of the original; model = views of the extracted state ----
     rng = ctx.subrng("preserve")
     cases, lines, impl = [], [], []
